@@ -122,6 +122,15 @@ pub fn cases(thorough: bool, seed: u64) -> Vec<Params> {
             }
         }
     }
+    // other message lengths (the 2-of-2 shape): empty, short literal, 33 bytes, 1332 bytes
+    for root in [ROOT_UNTWEAKED as u64, ROOT_32 as u64] {
+        for mk in [1u64, 2, 4, 3] {
+            if mk == 3 && !thorough && root != ROOT_UNTWEAKED as u64 {
+                continue;
+            }
+            out.push(Params { n: 2, t: 2, ids: IdSet::Default, subset: vec![0, 1], variant: V_SIGN, aux: root | (mk << 12), seed });
+        }
+    }
     for root in [ROOT_UNTWEAKED as u64, ROOT_32 as u64] {
         for mode in 0..3u64 {
             out.push(Params { n: 2, t: 2, ids: IdSet::Default, subset: vec![0, 1], variant: V_CHEAT, aux: root | (mode << 4), seed });
@@ -203,7 +212,17 @@ pub fn run<L: Lab<TR>>(lab: &mut L, p: &Params) {
             None => return,
         }
     };
-    let msg = lab.message("msg");
+    // message kind (aux bits 12..): 0 = one 32-byte symbolic block (a sighash), 1 = empty, 2 = 15 literal
+    // bytes, 3 = 1332 bytes (literal, symbolic block, literal), 4 = 33 bytes (a block and one more byte)
+    let msg = match (p.aux >> 12) & 0xf {
+        0 => lab.message("msg"),
+        4 => {
+            let mut m = lab.message("msg");
+            m.push(0x42);
+            m
+        }
+        k => scen::c01::message::<TR, L>(lab, k as u32),
+    };
     let root = root_bytes(lab, root_kind);
     let internal = keys.1.verifying_key().to_element();
     let px = x_of(&internal);
